@@ -735,3 +735,77 @@ Definition flight_client_ok (rc : N) (c : fclient) (rs : list message) : bool :=
   | [m] => reply_ok (fc_q c) m && (m_rcode m =? rc)
   | _ => false
   end.
+
+(* ------------------------------------------------------------------------------------------------ *)
+(* Part T: message ownership on the pipelined DNS-over-TCP fast path (handleTCPDnsFastPath) and the     *)
+(*         asynchronous cache refresh (backgroundRefresh)                                              *)
+(* ------------------------------------------------------------------------------------------------ *)
+(* The connection loop reads a query into a message object, handles it (a stale-but-servable cache entry
+   is answered at once and `go backgroundRefresh(..., cacheKey, dnsMessage, ...)` is spawned with a POINTER
+   to that message and the key of its question), then reads the next pipelined query.  [fresh] says whether
+   the next read allocates a fresh message (gen/C09_TcpOwn.v, extracted from the source) or unpacks into
+   the same object.  The refresh task first copies the message it points to, then resolves the copied
+   question and stores the answer under the key it was spawned with. *)
+Record tq := { tq_q : question; tq_stale : bool }.
+
+Inductive trpc :=
+| TRSpawned (obj : nat) (k : ckey)      (* holds the pointer; dnsMessage.Copy() still to come *)
+| TRCopied (q : question) (k : ckey)    (* owns a copy; resolution and cache store still to come *)
+| TRDone.
+
+Record tstate := {
+  t_heap : nat -> question;
+  t_next : nat;                         (* next free object *)
+  t_cur : nat;                          (* the object the loop's msg points to *)
+  t_pending : option tq;                (* read, not yet handled *)
+  t_todo : list tq;                     (* queries still on the wire *)
+  t_refresh : list trpc;
+  t_cache : list (ckey * question)      (* key -> the question its entry answers *)
+}.
+
+Inductive tev := TRead | THandle | TRefresh (j : nat).
+
+Definition qupd (h : nat -> question) (o : nat) (q : question) : nat -> question :=
+  fun o' => if Nat.eqb o' o then q else h o'.
+
+Definition tinit (q0 : question) (todo : list tq) (cache : list (ckey * question)) : tstate :=
+  {| t_heap := fun _ => q0; t_next := 0; t_cur := 0; t_pending := None; t_todo := todo;
+     t_refresh := []; t_cache := cache |}.
+
+Definition tstep (fresh : bool) (s : tstate) (e : tev) : tstate :=
+  match e with
+  | TRead =>
+      match t_pending s, t_todo s with
+      | None, x :: rest =>
+          let o := if fresh then t_next s else 0%nat in
+          {| t_heap := qupd (t_heap s) o (tq_q x); t_next := S (t_next s); t_cur := o;
+             t_pending := Some x; t_todo := rest; t_refresh := t_refresh s; t_cache := t_cache s |}
+      | _, _ => s
+      end
+  | THandle =>
+      match t_pending s with
+      | Some x =>
+          {| t_heap := t_heap s; t_next := t_next s; t_cur := t_cur s; t_pending := None; t_todo := t_todo s;
+             t_refresh := if tq_stale x then t_refresh s ++ [TRSpawned (t_cur s) (key_of (tq_q x))] else t_refresh s;
+             t_cache := t_cache s |}
+      | None => s
+      end
+  | TRefresh j =>
+      match nth_error (t_refresh s) j with
+      | Some (TRSpawned o k) =>
+          {| t_heap := t_heap s; t_next := t_next s; t_cur := t_cur s; t_pending := t_pending s; t_todo := t_todo s;
+             t_refresh := set_nth (t_refresh s) j (TRCopied (t_heap s o) k); t_cache := t_cache s |}
+      | Some (TRCopied q k) =>
+          (* the upstream answers the copied question (the question check passes for it); stored under k *)
+          {| t_heap := t_heap s; t_next := t_next s; t_cur := t_cur s; t_pending := t_pending s; t_todo := t_todo s;
+             t_refresh := set_nth (t_refresh s) j TRDone; t_cache := kset k q (t_cache s) |}
+      | _ => s
+      end
+  end.
+
+Definition trun (fresh : bool) (q0 : question) (todo : list tq) (cache : list (ckey * question)) (evs : list tev) : tstate :=
+  fold_left (tstep fresh) evs (tinit q0 todo cache).
+
+(* every cache entry answers the question of its key *)
+Definition tcache_ok (cache : list (ckey * question)) : bool :=
+  forallb (fun e => ckey_eqb (key_of (snd e)) (fst e)) cache.
